@@ -197,7 +197,7 @@ def run(facts, rep, ctx):
     R3 = rep.rule("R20.3", "payload and names are read through fallible stream reads only; the input slice is never indexed", floor=4)
     R4 = rep.rule("R20.4", "each Texture takes width, height, name and pixels from its own record; absolute seek targets", floor=8)
     for fn, ref in sorted(REF.items()):
-        b = facts.body(fn)
+        b = facts.ibody(fn, unroll=False)      # record loops are read as loops
         if b is None:
             rep.inconc(R1, "constructor %s not found" % fn)
             continue
@@ -492,7 +492,7 @@ def length_minus(facts, rep, R3):
 def self_relative(facts, rep, R1):
     """CGFX offsets are self-relative: value + position taken *before* the read of the value."""
     for fn in ("mila::cgfx::DATA::new", "mila::cgfx::DICT::new", "mila::cgfx::TXOB::new"):
-        b = facts.body(fn)
+        b = facts.ibody(fn, unroll=False)
         if b is None:
             continue
         idx = rpo_index(b)
